@@ -7,6 +7,10 @@ The edits come from `find_and_make_edits`/`replace_one` (absolute positions in t
 `offset`/`start` is the start of the first captured node; `old` is the captured slice
 (`get_var_bytes`).  Slices here are byte slices (`&[u8]`), no char-boundary condition.
 `usize` subtraction below zero panics (the harness is built with overflow checks).
+
+Pinned vs fixed: `makeEdit` / `joinBy` / `rewriteCompute` are the released code (0.37.0), kept as
+regression facts; `makeEditFixed` / `joinByFixed` / `rewriteComputeFixed` are the repaired code
+(the driver evaluates these).
 -/
 import AstGrepVerif.Model.Interactive
 
@@ -68,5 +72,58 @@ def rewriteCompute (old : Bytes) (edits : List REdit) (start : Nat) (joiner : Op
   match joiner with
   | some j => joinBy edits start j
   | none => makeEdit old edits start
+
+/-! ### the repaired code
+
+`fix: rewrite transformation clamps a rewriter's edit to the text being rewritten`: a fix with
+`expandStart` / `expandEnd` (or a rewriter made of a bare relation) may produce an edit that
+begins before, or reaches beyond, the captured text.  `make_edit` now clamps both end-points of
+the edit to the slice (`saturating_sub`, `min`, `clamp`), the `joinBy` branch subtracts with
+`saturating_sub`.  The definitions above are kept as the model of the released code (pinned);
+the ones below transcribe the repaired code.  `Nat` subtraction is saturating.  They still return
+`Res` because the two slices are still written `&old_content[a..b]` / `&old_content[a..]`:
+that they never fail is a theorem (`makeEditFixed_total`), not a convention. -/
+
+/-- the loop of the repaired `make_edit`:
+`end = (position + deleted_length).saturating_sub(offset)`,
+`pos = position.saturating_sub(offset).min(old_content.len())`,
+`start = end.clamp(pos, old_content.len())` -/
+def makeEditFixedGo (old : Bytes) (offset : Nat) : Nat → List REdit → Res Bytes
+  | start, [] => byteSliceFrom old start
+  | start, e :: es =>
+    let end_ := (e.position + e.deleted) - offset
+    let pos := min (e.position - offset) old.length
+    if start > pos then makeEditFixedGo old offset start es      -- skip overlapping edits
+    else do
+      let pre ← byteSlice old start pos
+      let rest ← makeEditFixedGo old offset (max pos (min end_ old.length)) es
+      pure (pre ++ e.inserted ++ rest)
+
+def makeEditFixed (old : Bytes) (edits : List REdit) (offset : Nat) : Res Bytes :=
+  makeEditFixedGo old offset 0 edits
+
+/-- the `for edit in edits` loop of the repaired `joinBy` branch (`position.saturating_sub(start)`) -/
+def joinByFixedGo (start : Nat) (joiner : Bytes) : Nat → List REdit → Res Bytes
+  | _, [] => .ok []
+  | pos, e :: es =>
+    let p := e.position - start
+    if pos > p then joinByFixedGo start joiner pos es            -- skip overlapping edits
+    else do
+      let rest ← joinByFixedGo start joiner (p + e.deleted) es
+      pure (joiner ++ e.inserted ++ rest)
+
+/-- the repaired `joinBy` branch of `Rewrite::compute` -/
+def joinByFixed (edits : List REdit) (start : Nat) (joiner : Bytes) : Res Bytes :=
+  match edits with
+  | [] => .ok []
+  | first :: rest => do
+    let tail ← joinByFixedGo start joiner (first.position - start + first.deleted) rest
+    pure (first.inserted ++ tail)
+
+/-- the repaired `Rewrite::compute` after the edits were collected -/
+def rewriteComputeFixed (old : Bytes) (edits : List REdit) (start : Nat) (joiner : Option Bytes) : Res Bytes :=
+  match joiner with
+  | some j => joinByFixed edits start j
+  | none => makeEditFixed old edits start
 
 end AGV
